@@ -5,6 +5,14 @@ import json
 ALL = [f"C{i:02d}" for i in range(1, 20)]
 
 CHECKS = {
+    "C08": dict(
+        category="model_checking", engine="E1+E5", design_ref="DESIGN.md 3/C08",
+        technique="explicit event-sequence exploration of the shared writer state machine across three writers + bounded-exhaustive differential comparison of handlers over source kinds",
+        text=("Writers: every G-model model x full product of values x config deviations, and every writer event sequence of the C03 automaton alphabet x 12 user prefix maps, are written by "
+              "XmlEventWriter, LxmlEventWriter and LxmlTreeBuilder/TreeSerializer; all three must reject together or produce the same infoset (prefixed values compared after resolving "
+              "prefixes). Handlers: serialized model instances and G-tree documents x 9 infoset-preserving decorations x {native, lxml} x {bytes, str, path, file object, lxml tree/element, "
+              "ElementTree tree/element} must parse to equal objects."),
+        note="mixed/generic content with indentation excluded (documented); documents whose values use prefixes are not given as ElementTree sources (prefixes are lost there)"),
     "C03": dict(
         category="model_checking", engine="E1+E5", design_ref="DESIGN.md 2.1, 2.6, 3/C03",
         technique="explicit event-sequence exploration of the writer state machine on the real writers + bounded-exhaustive comparison with an independent reference serializer",
